@@ -325,8 +325,8 @@ def run(ctx):
             # multi-step: canonical forms are re-canonicalized together with fresh variables
             if rng.random() < 0.3 and isinstance(c, claripy.ast.BV):
                 nm = rng.choice(["fresh", "canonical_1", "w"])
-                if any(l.op == "BVS" and l.args[0] == nm and l.length != c.length for l in c.leaf_asts()):
-                    nm = "fresh"    # the Lean model identifies variables by name; the same name at two widths is left to the oracle
+                if any(l.op in ("BVS", "BoolS") and l.args[0] == nm and (l.op != "BVS" or l.length != c.length) for l in c.leaf_asts()):
+                    nm = "fresh"    # the Lean model identifies variables by name; one name at two widths or two sorts is left to the oracle
                 fresh = claripy.BVS(nm, c.length, explicit_name=True)
                 c2 = rng.choice([fresh ^ c, c - fresh, fresh + c * 3])
                 c2t = E.from_ast(c2)
